@@ -530,6 +530,23 @@ func (ex *Exec) invoke(fr *Frame, st *State, pc *Term, cc *ssa.CallCommon, recv 
 	if h, ok := externs[key]; ok {
 		return h(ex, fr, st, pc, nil, append([]Value{recv}, args...), pos)
 	}
+	if h := externByPrefix(key); h != nil {
+		// opaque interface method of a dependency: arbitrary well-typed results, no effect on modelled state
+		res := cc.Signature().Results()
+		var vals []Value
+		for i := 0; i < res.Len(); i++ {
+			v := freshValue(res.At(i).Type(), "ext$"+cc.Method.Name())
+			ex.assumeWF(st, pc, v)
+			vals = append(vals, v)
+		}
+		switch len(vals) {
+		case 0:
+			return VTuple{}, pc
+		case 1:
+			return vals[0], pc
+		}
+		return VTuple{vals}, pc
+	}
 	// interface contract
 	if c := ex.V.ifaceContract(it, cc.Method.Name()); c != nil {
 		return ex.ifaceCall(fr, st, pc, cc, c, recv, args, pos)
